@@ -116,7 +116,7 @@ def build_inputs(ds, quick, seed, stats):
             if "\x00" in text or any(ord(ch) < 0x20 or 0xD800 <= ord(ch) < 0xE000 or ord(ch) in (0xFFFE, 0xFFFF) for ch in text):
                 continue       # would no longer be a well-formed stylesheet: another class
             items.append({"cls": c["cls"], "role": "xsl", "d": c["d"], "in": add(c03gen.in_stylesheet(text)), "nodeset": False, "desc": c, "embedded": True})
-    nf = 400 if quick else 6000
+    nf = 400 if quick else 2500
     for k, (role, b) in enumerate(c03gen.fuzz_inputs(seed, nf)):
         items.append({"cls": "fuzz", "role": role, "d": 0, "in": add(b), "nodeset": True, "desc": {"cls": "fuzz", "k": k, "seed": seed}})
     return inputs, items, fixed
@@ -129,9 +129,9 @@ BATCH = 25
 
 
 def plan(items, quick, seed):
-    """one execution per (item, scenario).  thorough: every scenario of the role; quick: the first items of every class go through
-    every scenario, the others through three scenarios chosen round-robin (so that all scenarios are used equally); depth 100000
-    only for one variant per class and depth >= 10000 through two scenarios each."""
+    """one execution per (item, scenario): the first item(s) of every class go through every scenario of their role, the others through
+    three (quick) / five (thorough) scenarios chosen round-robin, so that all scenarios are used equally; depth >= 10000 through two
+    scenarios each, the slowest depth-100000 / depth-10000 constructions only in the thorough tier."""
     cases, seen_cls = [], collections.Counter()
     rr = collections.Counter()
     for it in items:
@@ -149,7 +149,7 @@ def plan(items, quick, seed):
         if not quick and it["cls"] == "deepTemplateBody" and it["d"] >= 10000:
             if it["d"] >= 100000:
                 continue              # hours
-            scen = [x for x in scen if x[1] in ("stream", "prebuilt", "capiData")]
+            scen = [x for x in scen if x[1] in ("stream", "prebuilt")]
         if not quick and it["cls"] == "deepDocument" and it["d"] >= 100000:
             # a transformation of a document of depth 100000 takes more than 15 CPU minutes under ASan (ancestor walks per
             # element): only parsed and queried
@@ -157,10 +157,10 @@ def plan(items, quick, seed):
                 continue
             scen = [("X", "evalDoc"), ("X", "xcOneShot")]
         ck = (it["cls"], it["role"], bool(it.get("embedded")))
-        full = (not quick) or (seen_cls[ck] < 1 and not big)
+        full = seen_cls[ck] < (1 if quick else 4) and not big
         seen_cls[ck] += 1
         if not full:
-            k = 3
+            k = 3 if quick else (2 if big else 5)
             start = rr[it["role"]]
             rr[it["role"]] += k
             scen = [scen[(start + j) % len(scen)] for j in range(min(k, len(scen)))]
@@ -314,8 +314,10 @@ def symptom_key(ex, k):
                     kind = "ubsan: " + re.sub(r"0x[0-9a-f]+|-?\d[\d.e+]*", "N", m.group(1)).strip()
             return "%s: %s" % (kind.strip(), " < ".join(collapse(lib)[:3]) or "(no library frame)")
         if why == "exception":
-            d = demangle([detail.split(":")[-1]])[0] if detail else "?"
-            return "escaped exception %s from %s" % (short_name(d) if d else detail, call.get("op", "?"))
+            tn = detail.split(":")[-1] if detail else "?"
+            d = demangle(["_ZTI" + tn])[0].replace("typeinfo for ", "") if re.match(r"^[A-Za-z0-9_]+$", tn) else tn
+            d = re.sub(r"xalanc_\d+_\d+::", "", re.sub(r"xercesc_\d+_\d+::", "xercesc::", d))
+            return "escaped exception %s from %s" % (d, call.get("op", "?"))
         if why == "timeout":
             return "timeout in %s: %s" % (call.get("op", "?"), " < ".join(collapse(lib)[:2]))
         return "%s: %s" % (why, " < ".join(collapse(lib)[:3]) or "(no library frame)")
@@ -510,7 +512,7 @@ def run(res, tier, seed):
         "all of the small classes, a seed-offset stride of the position-indexed ones) + every XPath-role input again inside a stylesheet + %d seeded byte-level "
         "fuzz inputs (VERIF_SEED=%d). Scenarios: %s. non-trivial = the input is not an unmodified seed and the call under test returned; distinct = by "
         "(scenario, build flavour, input bytes)" % (len(ds), tier, len(sel), sum(1 for i in items if i["cls"] == "fuzz"), seed,
-                                                     "every scenario of the input's role" if not quick else
+                                                     "every scenario for the first four inputs of each class, five round-robin scenarios for the others (two for depth >= 10000)" if not quick else
                                                      "every scenario for the first input of each class, three round-robin scenarios for the others"))
     res.notes["inputs"] = len(inputs)
     res.notes["per_class"] = {k: dict(v) for k, v in sorted(per_class.items())}
